@@ -152,15 +152,15 @@ FILL = {
     ("text", "entity"): ["a &amp; b &lt;c&gt; &nbsp;&copy;", "&quot;q&quot; &apos;"],
     ("text", "nument"): ["&#65;&#x41; &#8364;", "&#0038;"],
     ("text", "nonascii"): ["café 中文 \U0001F600", "ß"],
-    ("text", "crlf"): ["l1\r\nl2\r\n", "\r\n"],
-    ("text", "cr"): ["l1\rl2", "\r"],
+    ("text", "crlf"): ["l1\r\nl2\r\n", "\r\n", "l1\r\n\nl2", "a\r\n\n\nb\n\r\nc", "\r\n\r\n\n"],
+    ("text", "cr"): ["l1\rl2", "\r", "l1\r\n\rl2\n\r", "\r\r\n\n", "a\r\n\nb"],
     ("text", "lf"): None,
     ("text", "dollar"): ["cost $ 5 {x} }", "a $x b"],
     ("text", "gt"): ["a > b >> c", ">"],
     ("text", "amp"): ["a & b && c", "AT&T; &;"],
     ("text", "quotes"): ["say \"hi\" and 'bye'", "'\""],
     ("text", "ws"): ["  \n\t  ", "\n"],
-    ("comment", "plain"): ["<!-- a comment -->", "<!---->"],
+    ("comment", "plain"): ["<!-- a comment -->", "<!---->", "<!-- a\r\n\n b\r\rc -->"],
     ("comment", "dashes"): ["<!-- a - b -->", "<!-- -x- -->"],
     ("comment", "markup"): ["<!-- <b tal:content=\"x\">not a statement</b> &amp; -->"],
     ("comment", "bang"): ["<!-- ! not dropped -->"],
@@ -176,7 +176,7 @@ ATTRS = {
     "unquoted": [" width=100", " a=b c=d"],
     "valueless": [" hidden", " a b"],
     "mixedcase": [' CLASS="A" onClick="f()"', ' Id="1"'],
-    "spaced": ['  class = "a"\n   id\t=\t"b" ', '\n  x="1"\n', ' a="1"\r\n     b="2"', '\r\n  x="1"', ' a="1"\rb="2" c="3"\r'],
+    "spaced": ['  class = "a"\n   id\t=\t"b" ', '\n  x="1"\n', ' a="1"\r\n     b="2"', '\r\n  x="1"', ' a="1"\rb="2" c="3"\r', ' a="1"\r\n\n   b="2"', '\r\n\n\n x="1"\n\r'],
     "multi": [' a="1" b=\'2\' c=3 d', ' z="1" a="2" m="3"'],
     "entval": [' title="a &amp; b &lt; c &quot;q&quot;"', " alt='&#65;&nbsp;'"],
     "gtval": [' title="a > b"', " on='a>b'"],
